@@ -97,9 +97,10 @@ def export_facts(tier, repo=None):
         with open(os.path.join(out, "FAILED.json"), "w") as f:
             json.dump(failed, f)
         open(done, "w").write(time.strftime("%F %T"))
-        # keep at most 4 cached hashes
+        # keep at most 4 cached hashes (VERIF_CACHE_KEEP raises it for parallel experiments on many scratch trees)
+        keep = int(os.environ.get("VERIF_CACHE_KEEP", "4"))
         ents = sorted(glob.glob(os.path.join(CACHE, "*")), key=os.path.getmtime)
-        for e in ents[:-4]:
+        for e in ents[:-keep]:
             subprocess.run(["rm", "-rf", e])
     return out, hsh
 
